@@ -360,11 +360,13 @@ def finish(cfg, rep):
     for v in rep.violations:
         hit = None
         for k in open_findings:
-            if k["signature"] == v["signature"] or (k.get("prefix") and v["signature"].startswith(k["signature"])):
+            m = k.get("match")
+            if k.get("signature") == v["signature"] or (m and v["signature"].startswith(m.get("startswith", "")) and
+                                                     all(c in v["signature"] for c in m.get("contains", []))):
                 hit = k
                 break
         if hit is not None:
-            matched.setdefault(hit["signature"], (hit, v))
+            matched.setdefault(hit.get("signature") or json.dumps(hit.get("match"), sort_keys=True), (hit, v))
         else:
             new_viol.append(v)
     for sig, (k, v) in sorted(matched.items()):
